@@ -289,6 +289,35 @@ func nclone(src []byte) []byte {
 
 var errClosed = errors.New("use of closed network connection")
 
+// ephemeral returns the next port that no open socket, listener or connection uses.
+//
+//go:norace
+func ephemeral() int {
+	for {
+		Fab.next++
+		p := Fab.next
+		used := false
+		for _, c := range Fab.udp {
+			if !c.closed && c.port == p {
+				used = true
+			}
+		}
+		for _, l := range Fab.listeners {
+			if !l.closed && l.addr.Port == p {
+				used = true
+			}
+		}
+		for _, c := range Fab.conns {
+			if !c.closed && c.laddr.Port == p {
+				used = true
+			}
+		}
+		if !used {
+			return p
+		}
+	}
+}
+
 // ---- UDP ----
 
 type UDPConn struct {
@@ -330,8 +359,7 @@ func ListenUDP(network string, laddr *net.UDPAddr) (*UDPConn, error) {
 		a = cloneUDPAddr(laddr)
 	}
 	if a.Port == 0 {
-		Fab.next++
-		a.Port = Fab.next
+		a.Port = ephemeral()
 	}
 	wild := unspecified(a.IP)
 	for _, c := range Fab.udp {
@@ -741,8 +769,7 @@ func listenTCP(ip net.IP, port int) (*TCPListener, error) {
 		return nil, errNotSim("Listen outside a world")
 	}
 	if port == 0 {
-		Fab.next++
-		port = Fab.next
+		port = ephemeral()
 	}
 	a := &net.TCPAddr{IP: cloneIP(ip), Port: port}
 	if unspecified(a.IP) {
@@ -841,8 +868,7 @@ func dial(laddr, raddr *net.TCPAddr) (*TCPConn, error) {
 	if laddr != nil && laddr.Port != 0 {
 		la.Port = laddr.Port
 	} else {
-		Fab.next++
-		la.Port = Fab.next
+		la.Port = ephemeral()
 	}
 	ra := &net.TCPAddr{IP: cloneIP(rip), Port: raddr.Port}
 	n := len(Fab.conns)
